@@ -26,7 +26,7 @@ func checkC06(c *Ctx) {
 	for _, init := range inits {
 		sim := &SketchGen{Init: init, Tokens: append(append([]int{}, tokBins3...), 0, -1, 2, -3, 16, -17), Weights: []int{1, 2, 4, 6, 8, 132, 280, 4096},
 			Factors: [][2]int{{1, 2}, {2, 1}}, Ops: []string{"Add", "AddW", "AddN", "Merge", "Clear", "Reweight", "EncDec", "DecodeNew", "Concat"},
-			Q: 4, QDen: 8, Depth: c.pick(12, 24), Simulate: true, Num: c.pick(600, 15000)}
+			Q: 4, QDen: 8, Depth: c.pick(12, 24), Simulate: true, Num: c.pick(600, 8000)}
 		c.runSketchGen(sim, mx, c.pick(8, 16), "simulated histories with encode/decode/concatenation")
 	}
 	// store level, production-size: long recorded histories in which stores with large unit-entry buffers,
@@ -58,7 +58,7 @@ func checkC09(c *Ctx) {
 	for _, init := range inits {
 		sim := &SketchGen{Init: init, Tokens: append(append([]int{}, tokBins3...), 0, -1, 2, -3, 16, -17), Weights: []int{1, 2, 4, 8, 132, 280, 4096},
 			Factors: [][2]int{{1, 2}, {2, 1}}, Ops: []string{"Add", "AddW", "AddN", "Merge", "Clear", "Reweight", "Proto"},
-			Q: 4, QDen: 8, Depth: c.pick(12, 24), Simulate: true, Num: c.pick(600, 15000)}
+			Q: 4, QDen: 8, Depth: c.pick(12, 24), Simulate: true, Num: c.pick(600, 8000)}
 		c.runSketchGen(sim, mx, c.pick(8, 16), "simulated histories with protobuf round trips")
 	}
 	runProtoMessages(c)
